@@ -1,34 +1,34 @@
 SPECIFICATION SimSpec
 CONSTANTS
   NVB = 2
-  InitLog <- HistA
-  MaxSeq = 3
+  InitLog <- EmptyLog
+  MaxSeq = 2
   Keys = {"user"}
-  Kinds = {"mut", "sys", "adv"}
+  Kinds = {"mut"}
   OldEvents = FALSE
   BadEvents = FALSE
   FoUuid <- Fo10
-  Savers = {"p", "c"}
-  MaxSaves = 4
-  MaxCrash = 1
-  MaxAcks = 4
-  MaxGen = 2
-  MaxNotify = 0
-  MaxEnds = 0
+  Savers = {"p"}
+  MaxSaves = 2
+  MaxCrash = 0
+  MaxAcks = 2
+  MaxGen = 4
+  MaxNotify = 2
+  MaxEnds = 2
   MaxFail = 0
   AutoReset = "earliest"
   Finite = FALSE
-  AutoCkpt = FALSE
-  Infos <- NoInfos
+  AutoCkpt = TRUE
+  Infos <- Infos2
   Info0 <- Info11
-  EndCauses = {}
+  EndCauses = {"socket", "ok"}
   Hold = FALSE
-  AllowClose = FALSE
+  AllowClose = TRUE
   Rollbacks = FALSE
-  FailSaves = TRUE
-  Focus = TRUE
+  FailSaves = FALSE
+  Focus = FALSE
   Record = TRUE
-  D = 40
+  D = 45
   Gaps = {}
   Bugs = {}
 INVARIANTS DumpSched
